@@ -194,7 +194,13 @@ fn record_frags(rng: &mut Rng, t: usize, c: usize) -> Vec<String> {
         match rng.below(4) {
             0 => v.push(format!("\x1b[38;5;{}m", rng.below(256))),
             1 => v.push("\x1b[0m".into()),
-            _ => v.push(format!("p{t}-{c}-{k}")),
+            _ => match rng.below(24) {
+                // a record larger than common chunking thresholds (8 KiB), or a line break inside
+                // the record (line-buffering layers split there)
+                0 => v.push(format!("p{t}-{c}-{k}:{}", "z".repeat(*rng.pick(&[1030usize, 8200, 9000, 17000])))),
+                1 | 2 => v.push(format!("p{t}-{c}-{k}\nl2-{t}-{c}")),
+                _ => v.push(format!("p{t}-{c}-{k}")),
+            },
         }
     }
     v.push("\x1b[m".into());
@@ -452,6 +458,16 @@ fn check(sc: &Scenario, sink: &[u8], reg: &[RegEvent]) -> Result<u64, String> {
     let fin = code_of(ColorChoice::global());
     if fin != cur {
         return Err(format!("global colour choice: final value {:?} is not the last write {:?}", choice_of(fin), choice_of(cur)));
+    }
+    if !reg.is_empty() {
+        // writers have finished: every further write must be readable at once
+        for v in [1u8, 2, 3, 0, 2, 1] {
+            choice_of(v).write_global();
+            let got = code_of(ColorChoice::global());
+            if got != v {
+                return Err(format!("global colour choice: after all threads finished, write_global({:?}) was followed by global() = {:?}", choice_of(v), choice_of(got)));
+            }
+        }
     }
     for ev in reg {
         if let RegEvent::Read(t, v) = ev {
